@@ -131,8 +131,14 @@ def _gen_step(ci, dom, two):
     def g(draw, w):
         roots = w.roots()
         if not any(w.handles[i].res == 0 for i in roots):
+            if w.stack and w.res_buffered(0):
+                # the file's only object was dropped inside a class-wide context and is still
+                # buffered there: no second object is opened on it (one object per file; several
+                # objects on one buffered file are C06's subject) - leave the contexts first
+                return {"t": "exit"}
             return {"t": "new", "r": 0, "id": w.next_id()}
-        if two and not any(w.handles[i].res == 1 for i in roots) and draw(st.integers(0, 4)) == 0:
+        if two and not any(w.handles[i].res == 1 for i in roots) and draw(st.integers(0, 4)) == 0 \
+                and not (w.stack and w.res_buffered(1)):
             return {"t": "new", "r": 1, "id": w.next_id()}
         c = draw(st.integers(0, 19))
         if w.log and w.log[-1]["t"] == "rewrite" and draw(st.integers(0, 3)) != 0:
